@@ -1447,6 +1447,69 @@ theorem c06_roster_clears_parked (o : Ovl) (ro : Roster) (h : ro.id ≠ 0) :
   | none => simpa using hl
   | some sl => simp [lookup_erase_self]
 
+/-! #### the store behaves like a three-valued map under peer messages -/
+
+/-- **refinement of the slot specification**: under any message from a peer every slot of the store
+(absent / waiting / holding a tree) either keeps its value or goes from *no tree* to *holding the
+rebuild of a description with that id* — a peer can neither create nor cancel a waiting marker,
+neither remove nor exchange a tree.  (Which empty slots may be filled is `c06_store_change_characterised`.) -/
+theorem c06_peer_step_refines_slot_spec (o : Ovl) (m : Msg) (id : Nat) :
+    lookup (handle o m).1.store id = lookup o.store id ∨
+    (o.get id = none ∧ ∃ t tm ro, lookup (handle o m).1.store id = some (some t) ∧
+      makeTree tm (some ro) = .ok t ∧ tm.treeId = id) := by
+  have hst : ∀ (tm : Option TreeMarshal) (ro : Option Roster),
+      lookup (handleSendTree o tm ro).store id = lookup o.store id ∨
+      (o.get id = none ∧ ∃ t tm' ro', lookup (handleSendTree o tm ro).store id = some (some t) ∧
+        makeTree tm' (some ro') = .ok t ∧ tm'.treeId = id) := by
+    intro tm ro
+    rcases handleSendTree_cases o tm ro with e | ⟨tm', r, t, _, _, _, hreq, hmk, e⟩
+    · rw [e]; exact Or.inl rfl
+    · rw [e]
+      by_cases hid : id = t.id
+      · refine Or.inr ⟨?_, t, tm', r, ?_, hmk, ?_⟩
+        · rw [hid, (makeTree_ok hmk).1]; exact requested_get o _ hreq
+        · rw [hid]; simp [Ovl.setTree, lookup_insert_self]
+        · rw [hid, (makeTree_ok hmk).1]
+      · exact Or.inl (lookup_setTree_ne o t id hid)
+  cases m with
+  | requestTree tid v => exact Or.inl (by rw [((c06_requests_read_only o).1 tid v).1])
+  | responseTree tm ro => exact hst tm ro
+  | treeMarshal tm =>
+    simp only [handle]
+    split
+    · exact Or.inl rfl
+    · split
+      · exact Or.inl rfl
+      · split
+        · exact Or.inl rfl
+        · exact hst _ _
+  | requestRoster rid => exact Or.inl rfl
+  | sendRoster ro =>
+    simp only [handle]
+    split
+    · exact Or.inl rfl
+    · rw [checkPending_eq]
+      split
+      · exact Or.inl rfl
+      · next sl _ =>
+        have := fold_pendStep_inv
+          (fun o' => lookup o'.store id = lookup o.store id ∨
+            (o.get id = none ∧ ∃ t tm, lookup o'.store id = some (some t) ∧ makeTree tm (some ro) = .ok t ∧ tm.treeId = id))
+          ro (by
+            intro o' tm t hP hnone hmk
+            by_cases hid : id = t.id
+            · refine Or.inr ⟨?_, t, tm, ?_, hmk, ?_⟩
+              · rcases hP with h | ⟨h, _⟩
+                · have : o'.get id = none := by rw [hid, (makeTree_ok hmk).1]; exact hnone
+                  simpa [Ovl.get, h] using this
+                · exact h
+              · rw [hid]; simp [Ovl.setTree, lookup_insert_self]
+              · rw [hid, (makeTree_ok hmk).1]
+            · rw [lookup_setTree_ne o' t id hid]; exact hP) sl o (Or.inl rfl)
+        rcases this with h | ⟨h, t, tm, h1, h2, h3⟩
+        · exact Or.inl h
+        · exact Or.inr ⟨h, t, tm, ro, h1, h2, h3⟩
+
 /-- **`NewTree` always computes the aggregates from the structure it is given**, whatever the
 aggregate fields of the (possibly re-used) nodes held before: afterwards every node carries the sum
 over its subtree.  So a tree made over nodes re-used from an earlier tree whose children changed
